@@ -365,7 +365,7 @@ pub fn rs_new_stub() -> std::hash::RandomState {
 
 
 // ---- HashMap<KeyT, u8> (the impl is separate code in src/impls.rs)
-hm!(c01_q_hashmap_m1, p_map_c01::<HashMap<KeyT, u8>>(1, true));
+hm!(c01_t_hashmap_m1, p_map_c01::<HashMap<KeyT, u8>>(1, true));
 hm!(c06_q_hashmap_m1, p_map_c02::<HashMap<KeyT, u8>>(1));
 hm!(c01_t_hashmap_m2, p_map_c01::<HashMap<KeyT, u8>>(2, true));
 hm!(c06_t_hashmap_m2, p_map_c02::<HashMap<KeyT, u8>>(2));
